@@ -107,6 +107,17 @@ func siteKey(p *Program, fi *FuncInfo, e ast.Expr) string {
 		return types.TypeString(t, func(*types.Package) string { return "" })
 	}
 	var canon func(e ast.Expr, depth int) string
+	// an index or slice bound: a constant, something measured from a length, or just its type (where the value
+	// comes from - a loop variable, a field, an element of another table - is not part of the site's identity)
+	bound := func(e ast.Expr, depth int) string {
+		if k, ok := constInt(info, e); ok {
+			return fmt.Sprint(k)
+		}
+		if c := canon(e, depth); strings.Contains(c, "len(") {
+			return c
+		}
+		return short(info.TypeOf(e))
+	}
 	canon = func(e ast.Expr, depth int) string {
 		e = ast.Unparen(e)
 		if k, ok := constInt(info, e); ok {
@@ -129,13 +140,13 @@ func siteKey(p *Program, fi *FuncInfo, e ast.Expr) string {
 			}
 			return exprStr(x)
 		case *ast.IndexExpr:
-			return canon(x.X, depth) + "[" + canon(x.Index, depth) + "]"
+			return canon(x.X, depth) + "[" + bound(x.Index, depth) + "]"
 		case *ast.SliceExpr:
 			part := func(e ast.Expr) string {
 				if e == nil {
 					return ""
 				}
-				return canon(e, depth)
+				return bound(e, depth)
 			}
 			return canon(x.X, depth) + "[" + part(x.Low) + ":" + part(x.High) + "]"
 		case *ast.BinaryExpr:
